@@ -107,6 +107,10 @@ pub fn bbi_options(o: &WOpts) -> BBIWriteOptions {
             b.manual_zoom_sizes = None;
         }
         Zoom::Manual(v) => b.manual_zoom_sizes = Some(v.clone()),
+        Zoom::ManualWithMax(v, m) => {
+            b.manual_zoom_sizes = Some(v.clone());
+            b.max_zooms = *m;
+        }
     }
     b.inmemory = o.inmemory;
     b.channel_size = o.channel_size;
